@@ -552,7 +552,7 @@ func (fr *Frame) builtin(st *State, b *ssa.Builtin, args []Val, pos token.Pos) [
 			}
 			return []Val{{T: it, C: []string{v.C[3]}}}
 		case *types.Basic:
-			return []Val{{T: it, C: []string{"(str.len " + v.C[0] + ")"}}}
+			return []Val{{T: it, C: []string{"(gs.len " + v.C[0] + ")"}}}
 		case *types.Array:
 			return []Val{{T: it, C: []string{vc.idx(u.Len())}}}
 		case *types.Pointer:
@@ -630,7 +630,7 @@ func (fr *Frame) appendBuiltin(st *State, args []Val, pos token.Pos) Val {
 	var addLen string
 	addIsStr := isString(add.T)
 	if addIsStr {
-		addLen = "(str.len " + add.C[0] + ")"
+		addLen = "(gs.len " + add.C[0] + ")"
 	} else {
 		addLen = add.C[2]
 	}
@@ -659,7 +659,7 @@ func (fr *Frame) appendBuiltin(st *State, args []Val, pos token.Pos) Val {
 		// appended
 		var src string
 		if addIsStr {
-			src = "(str.at " + add.C[0] + " k)"
+			src = "(gs.at " + add.C[0] + " k)"
 		} else {
 			src = "(select (select " + h + " " + add.C[0] + ") " + vc.iadd(add.C[1], "k") + ")"
 		}
@@ -681,7 +681,7 @@ func (fr *Frame) copyBuiltin(st *State, args []Val, pos token.Pos) Val {
 	var srcLen string
 	srcIsStr := isString(src.T)
 	if srcIsStr {
-		srcLen = "(str.len " + src.C[0] + ")"
+		srcLen = "(gs.len " + src.C[0] + ")"
 	} else {
 		srcLen = src.C[2]
 	}
@@ -699,7 +699,7 @@ func (fr *Frame) copyBuiltin(st *State, args []Val, pos token.Pos) Val {
 		newD := vc.fresh("copydata", "(Array "+i+" "+c.sort+")")
 		var srcAt string
 		if srcIsStr {
-			srcAt = "(str.at " + src.C[0] + " " + vc.isub("k", dst.C[1]) + ")"
+			srcAt = "(gs.at " + src.C[0] + " " + vc.isub("k", dst.C[1]) + ")"
 		} else {
 			srcAt = "(select (select " + h + " " + src.C[0] + ") " + vc.iadd(src.C[1], vc.isub("k", dst.C[1])) + ")"
 		}
